@@ -972,8 +972,12 @@ func eventPaths(fn *ssa.Function, p *Pather, ev func(ssa.Instruction) string, br
 		from     *ssa.BasicBlock
 		saved    Pather
 		callee   *ssa.Function
+		call     *ssa.Call
 	}
 	var frames []frame
+	if p != nil && p.InlineCalls != nil && p.Bind == nil {
+		p.Bind = map[ssa.Value]ssa.Value{}
+	}
 	var from *ssa.BasicBlock
 	record := func() bool {
 		count++
@@ -1002,7 +1006,7 @@ func eventPaths(fn *ssa.Function, p *Pather, ev func(ssa.Instruction) string, br
 		// bind the phis of this block to the edge taken
 		var boundPhis []*ssa.Phi
 		var prevBind []ssa.Value
-		if start == 0 && resolve && p != nil && from != nil {
+		if start == 0 && (resolve || len(frames) > 0) && p != nil && from != nil {
 			idx := -1
 			for i, pr := range b.Preds {
 				if pr == from {
@@ -1098,7 +1102,7 @@ func eventPaths(fn *ssa.Function, p *Pather, ev func(ssa.Instruction) string, br
 					cp.ParamNames = args
 					cp.Loads, cp.Bind = p.Loads, p.Bind
 					cp.KeepConv, cp.Inline, cp.DistinctCalls, cp.InlineCalls = p.KeepConv, p.Inline, p.DistinctCalls, p.InlineCalls
-					frames = append(frames, frame{retBlock: b, retIdx: idx + 1, from: from, saved: *p, callee: callee})
+					frames = append(frames, frame{retBlock: b, retIdx: idx + 1, from: from, saved: *p, callee: callee, call: call})
 					*p = *cp
 					from = nil
 					okc := walkAt(callee.Blocks[0], 0)
@@ -1122,14 +1126,55 @@ func eventPaths(fn *ssa.Function, p *Pather, ev func(ssa.Instruction) string, br
 			switch in.(type) {
 			case *ssa.Return:
 				if len(frames) > 0 {
-					// the helper returns: go on in the caller, in the caller's context
+					// the helper returns: go on in the caller, in the caller's context. A boolean result
+					// is bound to the constant it has on this way through the helper; one that is still a
+					// comparison splits the path like the branch it stands for.
 					fr := frames[len(frames)-1]
+					ret := in.(*ssa.Return)
+					var outcomes []ssa.Value
+					var labels []string
+					if len(ret.Results) == 1 && fr.call != nil {
+						rv := p.Deref(ret.Results[0])
+						if k, isK := rv.(*ssa.Const); isK {
+							outcomes, labels = []ssa.Value{k}, []string{""}
+						} else if bt, isB := rv.Type().Underlying().(*types.Basic); isB && bt.Kind() == types.Bool && br != nil {
+							if name := br(rv); name != "" {
+								outcomes = []ssa.Value{ssa.NewConst(constant.MakeBool(true), rv.Type()), ssa.NewConst(constant.MakeBool(false), rv.Type())}
+								labels = []string{name + "=T", name + "=F"}
+							}
+						}
+					}
+					if outcomes == nil {
+						outcomes, labels = []ssa.Value{nil}, []string{""}
+					}
 					frames = frames[:len(frames)-1]
 					calleeState, calleeFrom := *p, from
-					*p = fr.saved
-					from = fr.from
-					p.ResetMemo()
-					okc := walkAt(fr.retBlock, fr.retIdx)
+					okc := true
+					for oi, ov := range outcomes {
+						*p = fr.saved
+						from = fr.from
+						prev, had := p.Bind[fr.call]
+						if ov != nil {
+							p.Bind[fr.call] = ov
+						}
+						p.ResetMemo()
+						n1 := len(cur)
+						if labels[oi] != "" {
+							cur = append(cur, labels[oi])
+						}
+						okc = walkAt(fr.retBlock, fr.retIdx)
+						cur = cur[:n1]
+						if ov != nil {
+							if had {
+								p.Bind[fr.call] = prev
+							} else {
+								delete(p.Bind, fr.call)
+							}
+						}
+						if !okc {
+							break
+						}
+					}
 					*p = calleeState
 					from = calleeFrom
 					p.ResetMemo()
@@ -1146,13 +1191,29 @@ func eventPaths(fn *ssa.Function, p *Pather, ev func(ssa.Instruction) string, br
 			return record()
 		}
 		brName := ""
-		if br != nil && len(b.Succs) == 2 {
+		// a condition that folds to a constant under the current binding has one feasible side
+		feasible := -1
+		if p != nil && len(b.Succs) == 2 {
+			if iff, isIf := b.Instrs[len(b.Instrs)-1].(*ssa.If); isIf {
+				cv := p.Deref(iff.Cond)
+				neg := false
+				if u, isU := cv.(*ssa.UnOp); isU && u.Op == token.NOT {
+					cv, neg = p.Deref(u.X), true
+				}
+				if k, isK := cv.(*ssa.Const); isK && k.Value != nil && k.Value.Kind() == constant.Bool {
+					t := constant.BoolVal(k.Value) != neg
+					feasible = 1
+					if t {
+						feasible = 0
+					}
+				}
+			}
+		}
+		if br != nil && len(b.Succs) == 2 && feasible < 0 {
 			if iff, isIf := b.Instrs[len(b.Instrs)-1].(*ssa.If); isIf {
 				brName = br(iff.Cond)
 			}
 		}
-		// a condition that folds to a constant under the current binding has one feasible side
-		feasible := -1
 		if resolve && p != nil && len(b.Succs) == 2 {
 			if iff, isIf := b.Instrs[len(b.Instrs)-1].(*ssa.If); isIf {
 				if bo, isBin := p.Deref(iff.Cond).(*ssa.BinOp); isBin {
